@@ -38,7 +38,10 @@
  *   the model's event code, not of the enum; they never write idle together with subsystem or
  *   task type, and every order of writes that leaves idle last is equivalent here.)
  * The harness therefore walks i = 0 .. CH_MAX-1 over the REAL enum and writes the view whose
- * index is i when i is CH_SUBSYSTEM / CH_TYPE / CH_IDLE.
+ * index is i when i is CH_SUBSYSTEM / CH_TYPE / CH_IDLE.  Both facts used here (views propagated
+ * in index order; all of them hold the new values before the first is propagated) are checked on
+ * the real model_cpu.c / track.c / mux.c with the model's real cpu_spec by view_order.c.
+ * -DNCPU=1: the CPU under test alone (one row); -DNCPU=2: plus another CPU with any value.
  *
  * One inductive step from any state of
  *   Inv: the five channels of select.c's Inv (muxes select what the rule names for the current
@@ -63,6 +66,18 @@
 
 #ifndef SSCLS /* optional split over obligations by the subsystem class of the state (cost only) */
 #define SSCLS -1
+#endif
+#ifndef TTCLS /* optional further split by the task type class (0 null, 1 set) and the idle class of the state */
+#define TTCLS -1
+#endif
+#ifndef IDLECLS
+#define IDLECLS -1
+#endif
+#ifndef PROBE_PRE /* development probes only: restrict the case split */
+#define PROBE_PRE(e, k, a, b, c) 1
+#endif
+#ifndef PROBE_EV
+#define PROBE_EV(a, b, c) 1
 #endif
 #ifndef NCPU
 #define NCPU 2 /* sort inputs: 0 = the CPU under test, 1.. = other CPUs (unchanged in this event) */
@@ -355,18 +370,25 @@ run(int e, int copied, struct value ss, struct value tt, struct value idle,
 	int to_tr = is_int(nidle, ST_PROGRESSING);
 	if (e && rows_changed > 0) V_REACH("thread-switch-changes-the-rows");
 	if (e && copied && v_new[0] == v_old[0]) V_REACH("thread-switch-same-breakdown-value-rows-kept");
-#if SSCLS < 0 || SSCLS == 0
+	/* (witness points that cannot lie in the cell of this obligation are compiled out) */
+#if SSCLS <= 0 && TTCLS <= 0 && IDLECLS <= 0
 	if (!e && !copied && v_new[0] != 0) V_REACH("first-thread-of-the-cpu-first-sort-copy");
 #endif
 	if (e && to_tr && is_int(nss, ST_TASK_BODY) && ntt.type != VALUE_NULL && !veq(tr, ntt) && v_new[0] != v_old[0])
 		V_REACH("row-takes-the-task-type-of-the-new-thread");
 	/* the situation in which the order of the views matters: the old thread was not progressing
 	 * (mux1 showed idle), the new one progresses in another subsystem / task */
+#if IDLECLS != 1
 	if (e && to_tr && !is_int(idle, ST_PROGRESSING) && !veq(ref_breakdown_value(nss, ntt, nidle), tr)
 			&& nss.type != VALUE_NULL)
 		V_REACH("resumes-progress-with-a-new-tr-value");
+#endif
+#if IDLECLS < 0 || IDLECLS == 1
 	if (e && !to_tr && nidle.type == VALUE_INT64 && is_int(idle, ST_PROGRESSING)) V_REACH("row-takes-the-idle-state");
+#endif
+#if IDLECLS != 0
 	if (e && nss.type == VALUE_NULL && ntt.type == VALUE_NULL && nidle.type == VALUE_NULL && v_old[0] != 0) V_REACH("cpu-left-without-thread-row-zero");
+#endif
 #if NCPU >= 2
 	if (e && copied && rows_changed == NCPU && v_old[0] < v_old[1] && v_new[0] > v_old[1]) V_REACH("cpu-value-overtakes-the-other-cpu-all-rows-change");
 #endif
@@ -380,7 +402,7 @@ run(int e, int copied, struct value ss, struct value tt, struct value idle,
 /* the WITNESS twin only has to REACH the witness points: a subset of the cases of the main query */
 #define WEV(a, b, c) ((a) != 3 && (c) != 3 && ((a) == (b) || (a) == 1) && ((c) >= 1 || (a) == 0))
 #else
-#define WEV(a, b, c) 1
+#define WEV(a, b, c) PROBE_EV(a, b, c)
 #endif
 #define EV(a, b, c) \
 	if (WEV(a, b, c) && (a != 3 || ocs == 2) && (c != 3 || oci == 2) && cs == a && ct == b && ci == c) { \
@@ -407,8 +429,15 @@ harness(void)
 	V_ASSUME(IN.copied == 0 || IN.copied == 1);
 	V_ASSUME(valid(IN.ss) && valid(IN.tt) && valid(IN.idle));
 	V_ASSUME(valid(IN.nss) && valid(IN.ntt) && valid(IN.nidle));
-#if SSCLS >= 0 /* this obligation covers the states whose subsystem class is SSCLS (cost only) */
+	/* this obligation covers the states of one cell of (subsystem, task type, idle) classes (cost only) */
+#if SSCLS >= 0
 	V_ASSUME(cls(IN.ss, ST_TASK_BODY) == SSCLS);
+#endif
+#if TTCLS >= 0
+	V_ASSUME((IN.tt.type != VALUE_NULL) == TTCLS);
+#endif
+#if IDLECLS >= 0
+	V_ASSUME(cls(IN.idle, ST_PROGRESSING) == IDLECLS);
 #endif
 	V_ASSUME(cls_ok(IN.ss, ST_TASK_BODY, REP_PRE(ST_TASK_BODY)) && cls_ok(IN.idle, ST_PROGRESSING, REP_PRE(ST_PROGRESSING)));
 	V_ASSUME(cls_ok(IN.nss, ST_TASK_BODY, REP_NEW(ST_TASK_BODY)) || (cls(IN.ss, ST_TASK_BODY) == 2 && IN.nss.i == IN.ss.i && IN.nss.type == IN.ss.type));
@@ -458,10 +487,11 @@ harness(void)
 
 	/* ---- case split: state classes, then the event ---------------------------------------- */
 	int cs = cls(IN.ss, ST_TASK_BODY), ct = IN.tt.type != VALUE_NULL, ci = cls(IN.idle, ST_PROGRESSING);
+#define CELL(a, b, c) ((SSCLS < 0 || a == SSCLS) && (TTCLS < 0 || b == TTCLS) && (IDLECLS < 0 || c == IDLECLS))
 #ifdef WITNESS
-#define WPRE(e, k, a, b, c) ((SSCLS < 0 || a == SSCLS) && ((e) == 0 || ((k) == 1 && (a == 0 || b == 1) && c != 0)))
+#define WPRE(e, k, a, b, c) (CELL(a, b, c) && ((e) == 0 || ((k) == 1 && (a == 0 || b == 1 || TTCLS == 0) && (c != 0 || IDLECLS == 0))))
 #else
-#define WPRE(e, k, a, b, c) (SSCLS < 0 || a == SSCLS)
+#define WPRE(e, k, a, b, c) (CELL(a, b, c) && PROBE_PRE(e, k, a, b, c))
 #endif
 #define PRE(e, k, a, b, c) \
 	if (WPRE(e, k, a, b, c) && IN.ever == e && IN.copied == k && cs == a && ct == b && ci == c) { \
@@ -474,7 +504,7 @@ harness(void)
 	PRE(0, 0, 0, 0, 0)
 	PRE(0, 1, 0, 0, 0)
 	PRE_B(0) PRE_B(1) PRE_B(2)
-#ifndef WITNESS
+#if !defined(WITNESS) && !defined(PROBE)
 	V_ASSERT(0, "C20: the case split of the harness is exhaustive");
 #endif
 }
